@@ -147,5 +147,48 @@ theorem precomputed_guard_sound (ρ : Rep n R) (a : Aut V) (L : Nat) (maxlen wit
         intro res h
         cases h
 
+/-! ### any sequence of calls on one dict -/
+
+/-- the arguments of one public call `automaton_accepted(automaton, length, maxlen, with_words,
+start_state, end_state, precomputed=d, edge_words)` -/
+structure Call (V : Type) where
+  length : Nat
+  maxlen : Bool
+  withWords : Bool
+  startState : Option V
+  endState : Option V
+  edgeWords : Bool
+
+/-- a sequence of public calls sharing the dict `d`: the results (values or exceptions) and the
+final dict -/
+def runCalls (ρ : Rep n R) (a : Aut V) :
+    List (Call V) → PreDict V n R → List (M? (AccRes n R)) × PreDict V n R
+  | [], d => ([], d)
+  | c :: cs, d =>
+    let p := ρ.automatonAcceptedD a c.length c.maxlen c.withWords c.startState c.endState d
+      c.edgeWords
+    let q := runCalls ρ a cs p.2
+    (p.1 :: q.1, q.2)
+
+/-- what the call `c` must return if it returns a value -/
+def CallOK (ρ : Rep n R) (a : Aut V) (c : Call V) (r : M? (AccRes n R)) : Prop :=
+  ∀ res, r = .ok res →
+    ∃ pairs, ρ.topSpec a c.length c.maxlen c.withWords c.startState c.endState c.edgeWords =
+        .ok pairs ∧
+      res = toRes (topOpts c.maxlen c.withWords c.endState c.edgeWords) pairs
+
+/-- **any sequence of public calls, with whatever options, on a dict that satisfies the
+invariant (e.g. `{}`): every value returned is the specified one, and the invariant holds at
+the end** -/
+theorem precomputed_guard_calls (ρ : Rep n R) (a : Aut V) :
+    ∀ (cs : List (Call V)) (d : PreDict V n R), GuardOK ρ a d →
+      GuardOK ρ a (ρ.runCalls a cs d).2 ∧ List.Forall₂ (CallOK ρ a) cs (ρ.runCalls a cs d).1
+  | [], d, hd => ⟨hd, List.Forall₂.nil⟩
+  | c :: cs, d, hd => by
+    have h1 := precomputed_guard_sound ρ a c.length c.maxlen c.withWords c.startState c.endState
+      d c.edgeWords hd
+    have h2 := precomputed_guard_calls ρ a cs _ h1.1
+    exact ⟨h2.1, List.Forall₂.cons h1.2 h2.2⟩
+
 end Rep
 end GT.RepW
